@@ -121,3 +121,11 @@ Definition C07_parse_regex_is_validated_only : Prop := True.
 Example C07_example :
   kw_captures KWild (lit "GET * HTTP/*") (lit "x get /a b http/1.1 GET /c HTTP/2") = Some [lit "/a b"; lit "1.1 GET /c HTTP/2"].
 Proof. vm_compute. reflexivity. Qed.
+
+(** KF-39 - "keeping quoted tokens whole" is FALSE when a blank stands between the separator and the quote: the
+    quote is only recognised directly after a separator, so the quoted token is cut at the separator inside it. *)
+Theorem C07_split_quote_after_blank_refuted :
+  exists r, out (run_pipeline (fun _ => true) [SSplit (lit ",") None None] [lit "a, ""b,c"", d"]) = Ok (ORows [r]) /\
+            rdata r = [(lit "_split", VArr [VStr (lit "a"); VStr (lit """b"); VStr (lit "c"""); VStr (lit "d")])].
+Proof. eexists. split; [vm_compute; reflexivity|reflexivity]. Qed.
+Print Assumptions C07_split_quote_after_blank_refuted.
